@@ -16,14 +16,15 @@ def _key(r):
     k = r["kind"]
     if r["out"] == "panic":
         return "%s/%s-panics" % (PARSER[k], _num_class(json.dumps(r.get("s", r.get("value", "")))))
-    return "%s/%s/%s" % (PARSER[k], "wrongly-accepted-or-inexact" if r["out"] == "ok" else "wrongly-rejected", _num_class(json.dumps(r.get("s", r.get("value", "")))))
+    nc = "long-number" if _num_class(json.dumps(r.get("s", r.get("value", "")))) == "overflow" else "plain"
+    return "%s/%s/%s" % (PARSER[k], "wrongly-accepted-or-inexact" if r["out"] == "ok" else "wrongly-rejected", nc)
 
 
 def run(ctx):
     allp = os.path.join(ctx.work, "recs_all.ndjson")
     results = []
     with open(allp, "w") as fh:
-        for pkg in PKGS:
+        for pkg in (os.environ.get("VERIF_C49_PKGS", "").split() or PKGS):   # (development aid: subset of the drivers)
             out = ctx.go_test(pkg, "^TestVerif_C49$", timeout=2400)
             results.append(ctx.go_results[-1])
             fh.write(open(os.path.join(out, "recs.ndjson")).read())
